@@ -1385,7 +1385,10 @@ class XMLSchemaBase(XsdValidator, ElementPathMixin[Union[SchemaType, XsdElement]
 
         if context.identities is not identities:
             for identity, counter in context.identities.items():
-                identities[identity].counter.update(counter.counter)
+                if identity in identities:
+                    identities[identity].counter.update(counter.counter)
+                else:
+                    identities[identity] = counter
             context.identities = identities
 
         yield from self._validate_references(validation, context)
